@@ -122,6 +122,7 @@ static void run_world(const char *mode, long long idx, const Scenario &sc, sched
 	count("schedules");
 	note_distinct(mix(hash_str(mode), mix(w.sig, hash_str(sdesc))));
 	rec.counters["sched_points"] += w.steps; rec.counters["sched_switches"] += w.switches;
+	{ static uint64_t max_steps = 0; if(out.kind == sched::Outcome::Ok && w.steps > max_steps) { max_steps = w.steps; rec.notes[std::string("max_points_in_a_completing_schedule:shard") + std::to_string(opt.shard)] = std::to_string(max_steps) + " (budget " + std::to_string(w.step_limit) + ")"; } }
 	rec.counters["policy_map_calls"] += cx.ps.n_map;
 	if(cx.ps.n_map >= 2 + (sc.prefill.empty() ? 0 : 1)) count("schedules_with_concurrent_slab_construction_or_extra_map");
 	std::string tail; for(size_t k = w.trace.size() > 60 ? w.trace.size() - 60 : 0; k < w.trace.size(); k++) tail += w.trace[k] + " ";
@@ -131,7 +132,7 @@ static void run_world(const char *mode, long long idx, const Scenario &sc, sched
 	else if(out.kind == sched::Outcome::Deadlock) flag("deadlock", "a pool call can never return: " + out.detail);
 	else if(out.kind == sched::Outcome::Livelock) flag("livelock", out.detail);
 	else if(out.kind == sched::Outcome::Panic) flag("assert", "library assertion: " + out.detail);
-	else if(out.kind == sched::Outcome::StepLimit) count("inconclusive_step_limit");
+	else if(out.kind == sched::Outcome::StepLimit) flag("no-progress-step-budget", "a schedule did not finish within the step budget (far above any completing run): " + out.detail);
 	else {
 		for(size_t i = 0; i < sched::g_smx.held.size(); i++) if(sched::g_smx.held[i]) flag("lock-left-held", "a pool mutex is still held after all calls returned");
 		// quiescent check of every remaining live block
